@@ -2222,3 +2222,167 @@ def failure_injection(doc):
         return None
 
     return _run(main())
+
+
+# ---------------------------------------------------------------------------------------------------- C11
+def input_validation(doc):
+    """bounded search: one input spec (required / optional / defaulted / callable-defaulted / validated leaf ports, a nested
+    namespace, a lazy namespace (populate_defaults=False), a typed dynamic namespace) x a family of input dictionaries, against
+    an independent reference model: construction raises exactly when the reference rejects; accepted inputs = given values
+    completed with the declared defaults, read-only at every declared level; raw_inputs and the caller's dict untouched"""
+    import copy
+    import itertools
+    import plumpy
+    from plumpy.utils import AttributesFrozendict
+    known = set(doc.get('known_histories') or [])
+
+    def positive(value, port):
+        if value <= 0:
+            return 'must be positive'
+
+    class P(plumpy.Process):
+        @classmethod
+        def define(cls, spec):
+            super().define(spec)
+            spec.input('req', valid_type=int)
+            spec.input('opt', valid_type=str, required=False)
+            spec.input('dflt', valid_type=int, default=7)
+            spec.input('cdflt', valid_type=list, default=lambda: [1, 2])
+            spec.input('pos', valid_type=int, required=False, validator=positive)
+            spec.input('ns.a', valid_type=int)
+            spec.input('ns.b', valid_type=int, default=3)
+            spec.input_namespace('lazy', required=False, populate_defaults=False)
+            spec.input('lazy.x', valid_type=int, default=9)
+            spec.input('lazy.must', valid_type=int)
+            spec.input_namespace('dyn', valid_type=int, dynamic=True, required=False)
+
+    MISSING = object()
+
+    def reference(inp):
+        """-> (accepted, completed inputs)"""
+        if not isinstance(inp, dict):
+            return False, None
+        done = {}
+        ok = True
+        allowed = {'req', 'opt', 'dflt', 'cdflt', 'pos', 'ns', 'lazy', 'dyn'}
+        if set(inp) - allowed:
+            ok = False
+
+        def leaf(d, out, name, typ, required=True, default=MISSING, validator=None):
+            nonlocal ok
+            v = d.get(name, MISSING) if isinstance(d, dict) else MISSING
+            if v is MISSING and default is not MISSING:
+                v = default() if callable(default) else default
+            if v is MISSING:
+                if required:
+                    ok = False
+                return
+            out[name] = v
+            if not isinstance(v, typ) or isinstance(v, bool) and typ is int and False:
+                ok = False
+            elif validator is not None and validator(v, None) is not None:
+                ok = False
+        leaf(inp, done, 'req', int)
+        leaf(inp, done, 'opt', str, required=False)
+        leaf(inp, done, 'dflt', int, default=7)
+        leaf(inp, done, 'cdflt', list, default=lambda: [1, 2])
+        leaf(inp, done, 'pos', int, required=False, validator=positive)
+        ns_in = inp.get('ns', {})
+        if not isinstance(ns_in, dict):
+            return False, None
+        ns_out = {}
+        if set(ns_in) - {'a', 'b'}:
+            ok = False
+        leaf(ns_in, ns_out, 'a', int)
+        leaf(ns_in, ns_out, 'b', int, default=3)
+        done['ns'] = ns_out
+        if 'lazy' in inp:
+            lz = inp['lazy']
+            if not isinstance(lz, dict):
+                return False, None
+            lz_out = {}
+            if set(lz) - {'x', 'must'}:
+                ok = False
+            leaf(lz, lz_out, 'x', int, default=9)
+            leaf(lz, lz_out, 'must', int)
+            done['lazy'] = lz_out
+        if 'dyn' in inp:
+            dy = inp['dyn']
+            if not isinstance(dy, dict):
+                return False, None
+
+            def dyn_ok(d):
+                return all(dyn_ok(v) if isinstance(v, dict) else isinstance(v, int) for v in d.values())
+            if not dyn_ok(dy):
+                ok = False
+            done['dyn'] = copy.deepcopy(dy)
+        return ok, done
+
+    def plain(x):
+        if isinstance(x, (dict, AttributesFrozendict)) or hasattr(x, 'items'):
+            return {k: plain(v) for k, v in x.items()}
+        return x
+
+    base = {'req': 1, 'ns': {'a': 2}}
+    variants = [
+        {}, {'req': 'one'}, {'req': None}, {'opt': 'text'}, {'opt': 5}, {'dflt': 8}, {'dflt': 'eight'}, {'cdflt': [9]}, {'cdflt': (9,)},
+        {'pos': 3}, {'pos': -3}, {'pos': 0}, {'ns': {'a': 2, 'b': 4}}, {'ns': {'a': 'two'}}, {'ns': {}}, {'ns': {'a': 2, 'zzz': 1}},
+        {'extra': 1}, {'lazy': {'must': 1}}, {'lazy': {}}, {'lazy': {'must': 1, 'x': 2}}, {'lazy': {'x': 2}}, {'lazy': {'must': 'one'}},
+        {'dyn': {'p': 1}}, {'dyn': {'p': 'one'}}, {'dyn': {'sub': {'q': 2}}}, {'dyn': {'sub': {'q': 'two'}}}, {'dyn': {'sub': {'deep': {'r': 'x'}}}},
+        {'dyn': {}}, {'req': ()}, {'opt': ()}, {'ns': {'a': ()}},
+    ]
+    drops = [(), ('req',), ('ns',)]
+
+    def main_sync():
+        failures = []
+        for var, drop in itertools.product(variants, drops):
+            inp = copy.deepcopy(base)
+            inp.update(copy.deepcopy(var))
+            for d in drop:
+                inp.pop(d, None)
+            given = copy.deepcopy(inp)
+            key = f'C11|{json.dumps(given, sort_keys=True, default=repr)}'
+            want_ok, want = reference(given)
+            try:
+                proc = P(inputs=inp)
+                got_ok = True
+            except Exception as e:  # noqa
+                got_ok = False
+                err = e
+            if inp != given:
+                failures.append((key + '|caller-dict', f"the caller's dictionary was changed to {inp}"))
+            if got_ok != want_ok:
+                failures.append((key + ('|accepted' if got_ok else '|rejected'),
+                                 f'inputs {given}: construction {"succeeded" if got_ok else "raised " + type(err).__name__}, the spec says {"accept" if want_ok else "reject"}'))
+                continue
+            if not got_ok:
+                continue
+            if plain(proc.inputs) != want:
+                failures.append((key + '|completed', f'inputs {given}: process.inputs {plain(proc.inputs)}, expected {want}'))
+            if plain(proc.raw_inputs) != given:
+                failures.append((key + '|raw', f'inputs {given}: raw_inputs {plain(proc.raw_inputs)}'))
+            for path in ([], ['ns'], ['lazy'], ['dyn']):
+                cur = proc.inputs
+                try:
+                    for p_ in path:
+                        cur = cur[p_]
+                except KeyError:
+                    continue
+                try:
+                    cur['__probe__'] = 1
+                    failures.append((key + '|mutable', f'inputs {given}: inputs{path} accepts item assignment ({type(cur).__name__})'))
+                except TypeError:
+                    pass
+                except Exception:  # noqa
+                    pass
+        new = [(k, t) for k, t in failures if k not in known]
+        for k in sorted({k for k, _ in failures if k in known}):
+            print('KNOWN-HISTORY', k)
+        if doc.get('list_all'):
+            for k, t in failures:
+                print('FAIL', k, '::', t)
+        if new:
+            return '; '.join(f'{t}' for k, t in new[:3]) + (f' (+{len(new) - 3} more)' if len(new) > 3 else '')
+        return None
+
+    return main_sync()
